@@ -188,6 +188,7 @@ type Job struct {
 	Harness string
 	Cfg     int
 	Params  map[string]int
+	Stage   int // 0: must finish; >0: deeper bound, dropped (and reported) once the time budget is used up
 }
 
 type Witness struct {
@@ -203,6 +204,7 @@ type JobResult struct {
 	Stats    *JobStats
 	Obls     []*Obligation
 	Complete bool
+	TimedOut bool // a Stage>0 job cut short by the time budget
 	Err      string
 	Dur      time.Duration
 	Samples  []string
@@ -218,6 +220,7 @@ type RunOpts struct {
 	Solver    string
 	Workers   int
 	Verbose   bool
+	Deadline  time.Time // zero = none; applies to jobs with Stage > 0
 }
 
 func isRuxInit(fn *ssa.Function) bool {
@@ -416,6 +419,13 @@ func runJobs(w *World, jobs []Job, opts RunOpts) []*JobResult {
 					js.res.Complete = false
 					js.res.Stats.OutOfBound["path budget exhausted"]++
 				}
+				if !over && js.res.Job.Stage > 0 && !opts.Deadline.IsZero() && time.Now().After(opts.Deadline) {
+					over = true
+					if js.res.Complete {
+						js.res.Complete = false
+						js.res.TimedOut = true
+					}
+				}
 				js.mu.Unlock()
 				if over {
 					q.done()
@@ -429,6 +439,9 @@ func runJobs(w *World, jobs []Job, opts RunOpts) []*JobResult {
 				}
 				js.mu.Lock()
 				js.res.Stats.merge(st)
+				for _, o := range ex.obls {
+					o.Pkg, o.Params = js.res.Job.Pkg, js.res.Job.Params
+				}
 				js.res.Obls = append(js.res.Obls, ex.obls...)
 				if ex.witness != nil && opts.WitnessPerJob > 0 {
 					// keep witnesses evenly spread over the job's paths
